@@ -825,7 +825,12 @@ let run (lineno : int) (lbc : str -> n list) ofit (args : string array) (impl : 
              let sep_ok = (o.o_sep = SepAscii) || no_forced () in
              let no_overflow = List.for_all (fun l -> n_le (dwm l) o.o_width) (split_le o.o_le r1) in
              let applies = builtin && noind && sep_ok && (match o.o_alg with FirstFit -> true | OptimalFit _ -> no_overflow) in
-             if not applies then say "C14" "skip" "outside the stated option combinations"
+             (* the hypothesis of theorem C14_any_separator, evaluated by the extracted function:
+                where it is true, idempotence of the model is a theorem for this very text *)
+             let refind = o.o_alg = FirstFit && builtin && noind && refind_b cw alnum lbc custom3 o t in
+             if refind then say "C14" (if a = b then "ok" else "FAIL")
+                 (if a = b then "theorem-instance" else "refind_b holds for this text, so idempotence is a theorem of the model, but the implementation's second fill differs")
+             else if not applies then say "C14" "skip" "outside the stated option combinations"
              else if a = b then say "C14" "ok" ""
              else if not (List.for_all (additive lbc o) (split_le o.o_le t)) then say "C14" "known" "CutInsideEscape"
              else say "C14" "FAIL" "fill is not idempotent"
